@@ -556,3 +556,310 @@ func ruleC07AtomicValueSingleType(c *Ctx) {
 	}
 	c.ok("sdk/atomic.Value", "", "no interface-typed store into an atomic.Value")
 }
+
+// ---------------------------------------------------------------------------------------------
+// pre-sized with a length, then appended to
+
+// presizedThenAppended: a slice made with a non-zero length (make([]T, n)) whose value flows (directly or through a
+// phi) into the first operand of append: the n zero elements stay in front of everything that is appended.
+func presizedThenAppended(f *ssa.Function) []ssa.Instruction {
+	var out []ssa.Instruction
+	allInstrs(f, func(i ssa.Instruction) {
+		mk, ok := i.(*ssa.MakeSlice)
+		if !ok {
+			return
+		}
+		if k, isC := constOf(mk.Len); isC && k.ExactString() == "0" {
+			return
+		}
+		seen := map[ssa.Value]bool{}
+		var flows func(v ssa.Value, depth int) bool
+		flows = func(v ssa.Value, depth int) bool {
+			if depth > 4 || seen[v] {
+				return false
+			}
+			seen[v] = true
+			refs := v.Referrers()
+			if refs == nil {
+				return false
+			}
+			for _, r := range *refs {
+				switch x := r.(type) {
+				case *ssa.Call:
+					if b, isB := x.Call.Value.(*ssa.Builtin); isB && b.Name() == "append" && len(x.Call.Args) > 0 && x.Call.Args[0] == v {
+						return true
+					}
+				case *ssa.Phi:
+					if flows(x, depth+1) {
+						return true
+					}
+				case *ssa.Store:
+					// stored into a local variable that is later loaded as append's first operand
+					if a, isA := x.Addr.(*ssa.Alloc); isA && x.Val == v {
+						for _, r2 := range *a.Referrers() {
+							if ld, isL := r2.(*ssa.UnOp); isL && ld.Op == token.MUL && flows(ld, depth+1) {
+								return true
+							}
+						}
+					}
+				}
+			}
+			return false
+		}
+		// elements written by index are a legitimate use of a length; only flag when nothing indexes into it
+		indexed := false
+		if refs := mk.Referrers(); refs != nil {
+			for _, r := range *refs {
+				if _, isIA := r.(*ssa.IndexAddr); isIA {
+					indexed = true
+				}
+			}
+		}
+		if !indexed && flows(mk, 0) {
+			out = append(out, i)
+		}
+	})
+	return out
+}
+
+func presizedThenAppendedRule(prop string, pkgs ...string) func(*Ctx) {
+	return func(c *Ctx) {
+		u := c.U1
+		c.rule(prop+".no-presized-then-appended", "in the listed packages no slice is made with a non-zero length and then only appended to (make([]T, n) where make([]T, 0, n) was meant): the n zero values stay in front of the data — expected count on the pinned tree: none; positive example in the self-test fixtures", 0)
+		inPkg := map[string]bool{}
+		for _, p := range pkgs {
+			inPkg[p] = true
+		}
+		n := 0
+		for _, f := range u.RepoFuncs {
+			root := rootFunc(f)
+			if root.Pkg == nil || !inPkg[root.Pkg.Pkg.Path()] || f.Blocks == nil {
+				continue
+			}
+			for _, i := range presizedThenAppended(f) {
+				n++
+				c.CallSites++
+				c.bad(trimPkgDirs(shortName(f))+"/make-then-append", u.ipos(i), "the slice is created with a length and then appended to: it starts with that many zero values — a list of creation times gains leading zeros (the latest record is mis-ranked when every real value is below zero), a list of entries gains empty ones")
+			}
+		}
+		c.ok(prop+"/make-then-append", "", "no slice is pre-sized with a length and then appended to")
+	}
+}
+
+// ---------------------------------------------------------------------------------------------
+// C15.expiration-written-only-by-set, C15.values-are-opaque
+
+// ruleC15ExpirationWrittenOnlyBySet: an entry's deadline is "time of the last Set + expiry". Only Set (and helpers that
+// only Set calls) write cacheItem.expiration: a read that renews it turns the expiry into an idle timeout — entries that
+// are read regularly never expire and Get keeps returning values that should have left the cache.
+func ruleC15ExpirationWrittenOnlyBySet(c *Ctx) {
+	u := c.U1
+	c.rule("C15.expiration-written-only-by-set", "cacheItem.expiration is stored only in cache.Set, in the composite literal Set builds, or in helpers all of whose call sites (transitively) are in Set: Get, Delete and the eviction paths never renew a deadline", 1)
+	set := u.Method(pkgCache, "cache", "Set")
+	if set == nil {
+		c.unresolved("cache.Set", "method")
+		return
+	}
+	var onlyFromSet func(f *ssa.Function, depth int) bool
+	onlyFromSet = func(f *ssa.Function, depth int) bool {
+		if orig(f) == orig(set) {
+			return true
+		}
+		if depth > 3 {
+			return false
+		}
+		buildCallSiteIndex(f)
+		sites := callSiteIndex[orig(f)]
+		if len(sites) == 0 || addressTaken[orig(f)] {
+			return false
+		}
+		for _, ci := range sites {
+			if !onlyFromSet(ci.Parent(), depth+1) {
+				return false
+			}
+		}
+		return true
+	}
+	n := 0
+	for _, f := range u.RepoFuncs {
+		root := rootFunc(f)
+		if root.Pkg == nil || root.Pkg.Pkg.Path() != pkgCache || f.Blocks == nil {
+			continue
+		}
+		allInstrs(f, func(i ssa.Instruction) {
+			st, ok := i.(*ssa.Store)
+			if !ok {
+				return
+			}
+			fa, isF := st.Addr.(*ssa.FieldAddr)
+			if !isF || fieldName(fa.X.Type(), fa.Field) != "expiration" {
+				return
+			}
+			n++
+			c.CallSites++
+			c.FuncsAnalysed[shortName(f)] = true
+			c.check(onlyFromSet(f, 0), trimPkgDirs(shortName(f))+"/expiration-store", u.ipos(i), "reached only from Set", "an entry's expiration is (re)written on a path that does not come from Set (a read, a delete, an eviction): the deadline no longer is \"last Set + expiry\" — entries that keep being read never expire, and lookups return values that should have been evicted as expired")
+		})
+	}
+	if n == 0 {
+		c.bad("cache/expiration-store", "", "no store to cacheItem.expiration found")
+	}
+}
+
+// ruleC15ValuesAreOpaque: the generic cache never looks inside the values it stores: what happens to a value that leaves
+// the cache is the evict callback's business. A type assertion on a value ("if it is an io.Closer, close it") calls a
+// method whose meaning the cache cannot know — for a cached *Session, Close means "one holder is done", and an eviction
+// then drops a reference nobody gave back.
+func ruleC15ValuesAreOpaque(c *Ctx) {
+	u := c.U1
+	c.rule("C15.values-are-opaque", "no function of pkg/cache converts a stored value (a cacheItem.value, or a parameter of the value type parameter) to an interface in order to type-assert it or call a method on it", 1)
+	n := 0
+	for _, f := range u.RepoFuncs {
+		root := rootFunc(f)
+		if root.Pkg == nil || root.Pkg.Pkg.Path() != pkgCache || f.Blocks == nil {
+			continue
+		}
+		allInstrs(f, func(i ssa.Instruction) {
+			ta, ok := i.(*ssa.TypeAssert)
+			if !ok {
+				return
+			}
+			src := ta.X
+			for k := 0; k < 3; k++ {
+				switch y := src.(type) {
+				case *ssa.MakeInterface:
+					src = y.X
+				case *ssa.ChangeType:
+					src = y.X
+				case *ssa.ChangeInterface:
+					src = y.X
+				}
+			}
+			isValue := false
+			if ld, isL := src.(*ssa.UnOp); isL && ld.Op == token.MUL {
+				if fa, isF := ld.X.(*ssa.FieldAddr); isF && fieldName(fa.X.Type(), fa.Field) == "value" {
+					isValue = true
+				}
+			}
+			if p, isP := src.(*ssa.Parameter); isP {
+				if _, isTP := p.Type().(*types.TypeParam); isTP {
+					isValue = true
+				}
+			}
+			if !isValue {
+				return
+			}
+			n++
+			c.CallSites++
+			c.bad(trimPkgDirs(shortName(f))+"/value-type-assert", u.ipos(i), "the cache inspects a stored value (type assertion to "+ta.AssertedType.String()+"): calling a method the value happens to have — e.g. Close on a cached session, which means \"one holder released it\" — tears the entry down under its holders or releases it twice")
+		})
+	}
+	c.ok("cache/values-opaque", "", "stored values are never type-asserted")
+	_ = n
+}
+
+// ---------------------------------------------------------------------------------------------
+// wrappers do not hide optional interfaces
+
+// optionalMethodsOf: names of the methods the SDK looks for on a value of interface type `iface` by type assertion
+// (optional capabilities, e.g. GetRegionSuffix on a Metastore).
+func optionalMethodsOf(u *Universe, appPkg, iface string) []string {
+	seen := map[string]bool{}
+	for _, f := range u.RepoFuncs {
+		root := rootFunc(f)
+		if root.Pkg == nil || root.Pkg.Pkg.Path() != appPkg || f.Blocks == nil {
+			continue
+		}
+		allInstrs(f, func(i ssa.Instruction) {
+			ta, ok := i.(*ssa.TypeAssert)
+			if !ok || !typeIsNamed(ta.X.Type(), appPkg, iface) {
+				return
+			}
+			if it, isI := ta.AssertedType.Underlying().(*types.Interface); isI {
+				for k := 0; k < it.NumMethods(); k++ {
+					seen[it.Method(k).Name()] = true
+				}
+			}
+		})
+	}
+	var out []string
+	for k := range seen {
+		out = append(out, k)
+	}
+	return out
+}
+
+// hidingWrappers: named struct types of the universe's repository packages that embed the interface pkg.iface (and so
+// can be passed on as one) without having every method in `optional`.
+func hidingWrappers(u *Universe, appPkg, iface string, optional []string) []*types.Named {
+	var out []*types.Named
+	for _, p := range u.Pkgs {
+		if !strings.HasPrefix(p.PkgPath, "github.com/godaddy/asherah/") && !strings.HasPrefix(p.PkgPath, "fixtures/") {
+			continue
+		}
+		if strings.Contains(p.PkgPath, "/mocks") || p.Types == nil {
+			continue
+		}
+		sc := p.Types.Scope()
+		for _, nm := range sc.Names() {
+			tn, ok := sc.Lookup(nm).(*types.TypeName)
+			if !ok {
+				continue
+			}
+			nt, ok := tn.Type().(*types.Named)
+			if !ok {
+				continue
+			}
+			st, ok := nt.Underlying().(*types.Struct)
+			if !ok {
+				continue
+			}
+			embeds := false
+			for k := 0; k < st.NumFields(); k++ {
+				fld := st.Field(k)
+				if fld.Embedded() && typeIsNamed(fld.Type(), appPkg, iface) {
+					embeds = true
+				}
+			}
+			if !embeds {
+				continue
+			}
+			ms := types.NewMethodSet(types.NewPointer(nt))
+			missing := false
+			for _, m := range optional {
+				if ms.Lookup(nil, m) == nil && ms.Lookup(p.Types, m) == nil {
+					missing = true
+				}
+			}
+			if missing {
+				out = append(out, nt)
+			}
+		}
+	}
+	return out
+}
+
+// ruleC18WrappersKeepOptionalInterfaces: the SDK discovers a metastore's region suffix through an optional method found
+// by type assertion. A decorator that embeds the Metastore interface (logging, metrics, retries) only promotes the
+// interface's own methods: the optional one disappears, the assertion fails silently, and key ids come out without
+// their region part — a different, incompatible id scheme for the same table.
+func ruleC18WrappersKeepOptionalInterfaces(c *Ctx) {
+	c.rule("C18.wrappers-keep-optional-interfaces", "every struct type of the SDK and the sidecar that embeds appencryption.Metastore also has each method the SDK looks for on a Metastore by type assertion (GetRegionSuffix): a decorator must not hide an optional capability — expected count on the pinned tree: none; positive example in the self-test fixtures", 0)
+	opt := optionalMethodsOf(c.U1, pkgApp, "Metastore")
+	if len(opt) == 0 {
+		c.bad("Metastore/optional-methods", "", "no optional method is discovered on Metastore values by type assertion any more (GetRegionSuffix expected)")
+		return
+	}
+	n := 0
+	for _, u := range []*Universe{c.U1, c.U2} {
+		if u == nil {
+			continue
+		}
+		for _, nt := range hidingWrappers(u, pkgApp, "Metastore", opt) {
+			n++
+			c.CallSites++
+			c.bad(nt.Obj().Pkg().Name()+"."+nt.Obj().Name(), u.pos(nt.Obj().Pos()), "the type embeds appencryption.Metastore but lacks "+strings.Join(opt, ", ")+": wrapped in it, a region-suffixing metastore no longer reports its suffix (the SDK's type assertion fails silently) and every key id is written without the region — ids other than the documented _IK_partition_service_product_region, against the same table")
+		}
+	}
+	c.ok("Metastore/wrappers", "", "no decorator hides "+strings.Join(opt, ", "))
+}
